@@ -246,6 +246,12 @@ func runC18(w *World, r *Report) {
 						k++
 						r.Fail("C18-R1", fmt.Sprintf("%s | %s of secret field %s #%d", host, s.String(), fv.Name(), k), c.Pos(), "a credential field is read and formatted/logged directly")
 					}
+					// the undecoded payload of a request: it is the client's JSON, credentials included, and no
+					// sanitiser can have seen it
+					if fv != nil && fv.Name() == "RequestData" && typeIs(owner, pkgRequest, "CDCRequest") {
+						k++
+						r.Fail("C18-R1", fmt.Sprintf("%s | %s of the raw request payload #%d", host, s.String(), k), c.Pos(), "CDCRequest.RequestData (the client's undecoded JSON, which for a create request contains the passwords and tokens) is formatted/logged")
+					}
 				}
 			}
 		})
@@ -342,6 +348,10 @@ func runC18(w *World, r *Report) {
 		}
 	}
 
+	// ---------- R4 callers of the sanitiser
+	r.Rule("C18-R4", "sanitiser is given a type it recognises", "at every call of GetRequestInfo the concrete type boxed into the argument is either free of credentials or one of the types asserted (and sanitised) inside GetRequestInfo", 2)
+	c18SanitiserCallers(w, r)
+
 	// ---------- R3 sanitiser
 	gri := w.Func(pkgServer, "", "GetRequestInfo")
 	if gri == nil {
@@ -428,6 +438,60 @@ func runC18(w *World, r *Report) {
 			}
 			r.Check(ok, "C18-R3", cons, gri.Pos(), fmt.Sprintf("all %d secret paths cleared on the copy before it is marshalled", len(sp)), "the sanitised copy still carries "+miss+" when it is marshalled for the log")
 		}
+	}
+}
+
+// c18SanitiserCallers: C18-R4. GetRequestInfo recognises a request by a type assertion on *T; a caller that hands it a
+// T VALUE (or any other secret-bearing type it does not assert) gets the unsanitised JSON back.
+func c18SanitiserCallers(w *World, r *Report) {
+	gri := w.Func(pkgServer, "", "GetRequestInfo")
+	if gri == nil {
+		r.Undecided("C18-R4", "GetRequestInfo", 0, "anchor not found")
+		return
+	}
+	var asserted []types.Type
+	eachInstr(gri, func(in ssa.Instruction) {
+		if ta, ok := in.(*ssa.TypeAssert); ok {
+			asserted = append(asserted, ta.AssertedType)
+		}
+	})
+	n := 0
+	for _, fn := range w.RepoFuncs() {
+		k := 0
+		eachInstr(fn, func(in ssa.Instruction) {
+			ci, ok := in.(ssa.CallInstruction)
+			if !ok || ci.Common().StaticCallee() != gri || len(ci.Common().Args) != 1 {
+				return
+			}
+			n++
+			k++
+			cons := fmt.Sprintf("%s | GetRequestInfo#%d argument", shortFn2(fn), k)
+			bad := ""
+			for _, x := range backSlice(ci.Common().Args[0], SliceOpts{MaxDepth: 6}) {
+				mi, isMI := x.(*ssa.MakeInterface)
+				if !isMI {
+					continue
+				}
+				t := mi.X.Type()
+				nm := namedOf(t)
+				if nm == nil || len(secretPaths(nm)) == 0 {
+					continue
+				}
+				handled := false
+				for _, a := range asserted {
+					if types.Identical(a, t) {
+						handled = true
+					}
+				}
+				if !handled {
+					bad = types.TypeString(t, func(p *types.Package) string { return p.Name() })
+				}
+			}
+			r.Check(bad == "", "C18-R4", cons, ci.Pos(), "the argument's concrete type is one the sanitiser recognises (or carries no credentials)", "the value handed to the request sanitiser has type "+bad+", which carries credentials but is not one of the types GetRequestInfo asserts: it is marshalled unsanitised and the credentials are logged")
+		})
+	}
+	if n < 2 {
+		r.Fail("C18-R4", "GetRequestInfo call census", gri.Pos(), fmt.Sprintf("only %d call sites of GetRequestInfo found (2 confirmed)", n))
 	}
 }
 
